@@ -6,6 +6,7 @@
 //!
 //! Line protocol (all times in seconds of model time):
 //!   case <idx> <class> nt=<0|1> min=<s> max=<s> pp=<n> tot=<n> cc=<n>
+//!   (generator classes: limits, refresh, cookies, mixed, slots = fill to a limit / no-op unregisters / fresh namespaces)
 //!   op reg <peer> <ns> <ttl|->          impl ok <ttl> sz=<a>/<b>/<c> | err <Code> sz=…
 //!   op unreg <peer> <ns>                impl ok sz=…
 //!   op disc <ns|*> <cookie|-> <limit|-> <chosen>   impl ok <entries> <cookie-ns|*> sz=… | err mismatch sz=…
@@ -25,7 +26,9 @@ use libp2p_core::{Multiaddr, PeerRecord};
 use libp2p_rendezvous::server::{verif_c51::Regs, Config};
 use libp2p_rendezvous::{Cookie, ErrorCode, Namespace, Registration};
 
-const NS: [&str; 3] = ["a", "b", "c"];
+const NS: [&str; 8] = ["a", "b", "c", "d", "e", "f", "g", "h"];
+/// namespaces used by the undirected random classes
+const NNS: usize = 3;
 const NPEERS: usize = 4;
 /// granularity of every accepted ttl and every clock advance (margin against real-time drift)
 const G: u64 = 600;
@@ -371,7 +374,7 @@ struct GenSt {
 
 fn gen_op(r: &mut Rng, cfg: &Cfg, class: &str, g: &mut GenSt) -> Op {
     let npeers = if class == "limits" || class == "refresh" { 2 } else { NPEERS };
-    let nns = if class == "refresh" { 2 } else { NS.len() };
+    let nns = if class == "refresh" { 2 } else { NNS };
     let w = match class {
         "limits" => [60, 10, 15, 15],
         "refresh" => [45, 5, 20, 30],
@@ -403,7 +406,7 @@ fn gen_op(r: &mut Rng, cfg: &Cfg, class: &str, g: &mut GenSt) -> Op {
                 0..=5 => Some((k, if k == g.discs - 1 { g.last_ns } else { ns })),
                 6 | 7 => Some((k, ns)),
                 8 => Some((k, None)),
-                _ => Some((k, Some(r.usize(NS.len())))),
+                _ => Some((k, Some(r.usize(NNS)))),
             }
         };
         let (ns, cookie) = match cookie {
@@ -446,6 +449,66 @@ fn gen_op(r: &mut Rng, cfg: &Cfg, class: &str, g: &mut GenSt) -> Op {
         g.pending.retain(|t| *t > now);
         Op::Adv(d)
     }
+}
+
+/// directed: fill a peer (or the whole store) to its limit, then k no-op unregisters (namespace never
+/// registered / duplicate unregister / already expired / a peer without registrations), then register
+/// fresh namespaces; more namespaces (8) than any limit (<= 3)
+fn gen_slots(r: &mut Rng) -> (Cfg, Vec<Op>) {
+    let total_mode = r.chance(1, 3);
+    let lim = r.range(1, 3) as usize;
+    let cfg = if total_mode {
+        Cfg { min: G, max: 4 * G, pp: 6, tot: lim, cc: 2 }
+    } else {
+        Cfg { min: G, max: 4 * G, pp: lim, tot: if r.chance(1, 4) { lim + 1 } else { 12 }, cc: 2 }
+    };
+    let mut nss: Vec<usize> = (0..NS.len()).collect();
+    r.shuffle(&mut nss);
+    let p = r.usize(NPEERS);
+    // the i-th registration of the fill: (peer, ns); per-peer mode keeps one peer, total mode varies it
+    let who = |i: usize| if total_mode { ((p + i) % NPEERS, nss[i]) } else { (p, nss[i]) };
+    let reg = |(peer, ns): (usize, usize), ttl: u64| Op::Reg { peer, ns, ttl: Some(ttl) };
+    let unreg = |(peer, ns): (usize, usize)| Op::Unreg { peer, ns };
+    let short_first = r.bool();
+    let mut ops = vec![];
+    for i in 0..lim {
+        ops.push(reg(who(i), if i == 0 && short_first { G } else { 4 * G }));
+    }
+    let mut fresh = lim; // next never-used index into nss
+    let mut expired_done = false;
+    for _ in 0..r.range(1, 3) {
+        match r.below(4) {
+            0 => ops.push(unreg(who(fresh))), // never registered (total mode: possibly a peer with no registration)
+            1 => {
+                let i = r.usize(lim);
+                if i == 0 && expired_done {
+                    ops.push(unreg(who(fresh)));
+                } else {
+                    ops.push(unreg(who(i)));
+                    ops.push(unreg(who(i)));
+                    ops.push(reg(who(i), 4 * G));
+                }
+            }
+            2 if short_first && !expired_done => {
+                ops.push(Op::Adv(G));
+                ops.push(unreg(who(0)));
+                ops.push(reg(who(0), 4 * G));
+                expired_done = true;
+            }
+            _ => ops.push(Op::Unreg { peer: (p + 1 + r.usize(NPEERS - 1)) % NPEERS, ns: nss[fresh] }),
+        }
+    }
+    for _ in 0..r.range(2, 3) {
+        ops.push(reg(who(fresh), if r.bool() { G } else { 4 * G }));
+        fresh += 1;
+    }
+    ops.push(Op::Disc { ns: None, cookie: None, limit: None });
+    if r.bool() {
+        ops.push(Op::Adv(G));
+        ops.push(reg(who(fresh), G));
+        ops.push(Op::Disc { ns: None, cookie: None, limit: None });
+    }
+    (cfg, ops)
 }
 
 fn has_kind(ops: &[Op]) -> bool {
@@ -500,6 +563,24 @@ fn scripted() -> Vec<(&'static str, Cfg, Vec<Op>)> {
             vec![reg(0, 0, 2 * G - 1), reg(0, 0, 2 * G), reg(0, 1, 7200), reg(0, 2, 7201), Op::Reg { peer: 1, ns: 0, ttl: None }, reg(1, 1, 0), disc(None, None, None), Op::Adv(2 * G), Op::Adv(7200 - 2 * G)],
         ),
         (
+            "noop_unregister_at_peer_limit",
+            Cfg { min: G, max: 4 * G, pp: 2, tot: 12, cc: 2 },
+            vec![
+                reg(0, 0, G), reg(0, 1, 4 * G), reg(0, 2, G), Op::Unreg { peer: 0, ns: 2 }, Op::Unreg { peer: 0, ns: 3 }, reg(0, 2, G), reg(0, 3, G),
+                Op::Unreg { peer: 0, ns: 1 }, Op::Unreg { peer: 0, ns: 1 }, reg(0, 1, 4 * G), reg(0, 4, G), Op::Adv(G), Op::Unreg { peer: 0, ns: 0 },
+                reg(0, 0, G), reg(0, 5, G), reg(0, 6, G), disc(None, None, None),
+            ],
+        ),
+        (
+            "noop_unregister_at_total_limit",
+            Cfg { min: G, max: 4 * G, pp: 6, tot: 2, cc: 2 },
+            vec![
+                reg(0, 0, G), reg(1, 1, 4 * G), reg(2, 2, G), Op::Unreg { peer: 2, ns: 2 }, Op::Unreg { peer: 0, ns: 5 }, Op::Unreg { peer: 1, ns: 1 },
+                Op::Unreg { peer: 1, ns: 1 }, reg(1, 1, 4 * G), reg(2, 2, G), reg(0, 5, G), Op::Adv(G), Op::Unreg { peer: 0, ns: 0 }, reg(3, 3, G), reg(0, 0, G),
+                disc(None, None, None),
+            ],
+        ),
+        (
             "default_ttl_out_of_range",
             Cfg { min: G, max: 2 * G, pp: 3, tot: 8, cc: 2 },
             vec![Op::Reg { peer: 1, ns: 0, ttl: None }, disc(None, None, None)],
@@ -518,6 +599,7 @@ fn exhaustive(len: usize, out: &mut Out, idx: &mut u64) {
         reg(1, 0, G),
         reg(2, 1, 2 * G),
         Op::Unreg { peer: 0, ns: 0 },
+        Op::Unreg { peer: 0, ns: 1 },
         Op::Disc { ns: None, cookie: None, limit: None },
         Op::Disc { ns: None, cookie: Some((usize::MAX, None)), limit: Some(1) },
         Op::Disc { ns: Some(0), cookie: Some((usize::MAX, Some(0))), limit: None },
@@ -570,13 +652,20 @@ pub fn run(args: &Args, out: &mut Out) {
     if args.thorough && args.count == 0 {
         exhaustive(4, out, &mut idx);
     } else if args.count == 0 {
-        exhaustive(2, out, &mut idx);
+        exhaustive(3, out, &mut idx);
     }
     let n = args.n(400, 6000);
-    let classes = ["limits", "refresh", "cookies", "mixed"];
+    let classes = ["limits", "refresh", "cookies", "mixed", "slots"];
     for i in 0..n {
         let mut r = Rng::for_case(args.seed, i);
-        let class = classes[(i % 4) as usize];
+        let class = classes[(i % 5) as usize];
+        if class == "slots" {
+            let (cfg, ops) = gen_slots(&mut r);
+            out.case(idx, &format!("{} nt=1 {}", class, cfg.toks()));
+            run_case(cfg, &ops, out);
+            idx += 1;
+            continue;
+        }
         let cfg = gen_cfg(&mut r, class);
         let len = if r.chance(1, 10) { r.range(60, 200) } else { r.range(3, 40) } as usize;
         let mut g = GenSt { discs: 0, last_ns: None, pending: vec![], now: 0 };
